@@ -128,6 +128,40 @@ func attestedCase(t *testing.T, run *emit.Run, r *rand.Rand) {
 	// validators derived from run.Rng only (addresses and keys decide the snapshot order)
 	vals := make([]stakingtypes.Validator, nv)
 	equal := r.Intn(2) == 0
+	// pattern 2 / 3: skewed shares; the 2/3-by-shares set is a minority by head count ("heavy agree"), or a
+	// head-count majority of small validators stays below 2/3 of the shares ("light agree")
+	pattern := r.Intn(4)
+	var skew []int64
+	if pattern >= 2 {
+		switch r.Intn(3) {
+		case 0: // e.g. 50/20/10/10/10
+			nv = 5 + r.Intn(3)
+			skew = []int64{50, 20}
+		case 1: // one validator holds more than two thirds
+			nv = 4 + r.Intn(4)
+			skew = []int64{int64(70 + r.Intn(20))}
+		default: // 40/30 + small ones
+			nv = 5 + r.Intn(3)
+			skew = []int64{40, 30}
+		}
+		rest := int64(100)
+		for _, x := range skew {
+			rest -= x
+		}
+		small := nv - len(skew)
+		for k := 0; k < small; k++ {
+			x := rest / int64(small)
+			if k == 0 {
+				x += rest % int64(small)
+			}
+			if x == 0 {
+				x = 1
+			}
+			skew = append(skew, x)
+		}
+		r.Shuffle(len(skew), func(a, b int) { skew[a], skew[b] = skew[b], skew[a] })
+		vals = make([]stakingtypes.Validator, nv)
+	}
 	ops := map[string]int{} // operator -> id (snapshot order, set below)
 	for i := range vals {
 		secret := make([]byte, 32)
@@ -141,6 +175,9 @@ func attestedCase(t *testing.T, run *emit.Run, r *rand.Rand) {
 		power := int64(1000)
 		if !equal {
 			power = int64(1 + r.Intn(9))
+		}
+		if skew != nil {
+			power = skew[i]
 		}
 		vals[i] = stakingtypes.Validator{
 			OperatorAddress: sdk.ValAddress(opAddr).String(),
@@ -352,6 +389,47 @@ func attestedCase(t *testing.T, run *emit.Run, r *rand.Rand) {
 
 	nops := 2 + r.Intn(2*nv+2)
 	split := r.Intn(2) == 0
+	// planned submissions for the skewed patterns: validators by share, heaviest (pattern 2) or lightest (3) first,
+	// all on the base answer; pattern 3 stops before the agreeing shares reach two thirds
+	type planned struct{ id, w int }
+	var plan []planned
+	if pattern >= 2 {
+		order := make([]int, nv)
+		for k := range order {
+			order[k] = k
+		}
+		for a := 0; a < nv; a++ {
+			for b := a + 1; b < nv; b++ {
+				lt := shares[order[b]].GT(shares[order[a]])
+				if pattern == 3 {
+					lt = shares[order[b]].LT(shares[order[a]])
+				}
+				if lt {
+					order[a], order[b] = order[b], order[a]
+				}
+			}
+		}
+		sum := new(big.Int)
+		for _, id := range order {
+			next := new(big.Int).Add(sum, shares[id].BigInt())
+			reach := new(big.Int).Mul(next, big.NewInt(3)).Cmp(new(big.Int).Mul(total.BigInt(), big.NewInt(2))) >= 0
+			if pattern == 3 && reach {
+				break
+			}
+			plan = append(plan, planned{id, 0})
+			sum = next
+			if pattern == 2 && reach {
+				break
+			}
+		}
+		if r.Intn(3) == 0 && len(proofs) > 1 && proofs[1] != nil { // a dissenting light / heavy validator afterwards
+			plan = append(plan, planned{order[nv-1], 1})
+		}
+		nops = len(plan)
+		run.Count("attested-pattern", map[int]string{2: "heavy-agree", 3: "light-agree"}[pattern])
+	} else {
+		run.Count("attested-pattern", "random")
+	}
 	for j := 0; j < nops && !removed; j++ {
 		id := r.Intn(nv)
 		addr := addrs[id]
@@ -363,6 +441,9 @@ func attestedCase(t *testing.T, run *emit.Run, r *rand.Rand) {
 			w = j % len(proofs)
 		} else if r.Intn(3) != 0 {
 			w = 0
+		}
+		if plan != nil {
+			id, addr, w = plan[j].id, addrs[plan[j].id], plan[j].w
 		}
 		m := &consensustypes.MsgAddEvidence{MessageID: msgID, QueueTypeName: queue}
 		if proofs[w] != nil {
@@ -377,7 +458,7 @@ func attestedCase(t *testing.T, run *emit.Run, r *rand.Rand) {
 		}
 		trace = append(trace, fmt.Sprintf("validator %d submits proof %d -> ok=%v", id, w, err == nil))
 		opItems = append(opItems, fmt.Sprintf("C04.ASubmit %d %d %s", id, w, emit.Bool(err == nil)))
-		if r.Intn(2) == 0 {
+		if plan != nil || r.Intn(2) == 0 {
 			process()
 		}
 	}
